@@ -25,7 +25,7 @@ PROPS = {
         not_decided="text of classic xref entries ({:010} formatting of the recorded offsets), startxref, /Size, reference resolution, strict-parser acceptance (write_document's I/O sequence); buffered (object-stream) objects; names (see C30)",
     ),
     "C09": dict(
-        verus=["strings", "incr", "names", "mainwriter"],
+        verus=["strings", "incr", "names", "mainwriter", "lexer"],
         standins=["fmt", "objects"],
         not_decided="integers/reals (number text), arrays/dictionaries nesting, object streams, names (C30), the ISO-reader lemma for EOL handling",
     ),
@@ -36,7 +36,7 @@ PROPS = {
     "C04": dict(
         verus=["prevmerge"],
         standins=["revisions"],
-        not_decided="that parse_primary_with_options builds each revision's table faithfully from bytes; the recovery scan (add_headers_latest_wins pending); object-stream extraction; that load_object_from_disk's lookup order is extended_entries-then-entries (transcribed in `dispatch`)",
+        not_decided="that parse_primary_with_options builds each revision's table faithfully from bytes; the recovery scan that produces the headers; object-stream extraction and the reader's object cache (get_compressed_object: covered only by the bounded stand-in `revisions`)",
     ),
     "C10": dict(
         kani=[K("c10_text_kernel_ascii", "text/encoding.rs", "winansi_decode_char (reader's non-BOM text path)"),
@@ -58,7 +58,7 @@ PROPS = {
         not_decided="TextEncoding::{encode, encode_strict, decode} (str::chars/String: outside both verifiers); StandardEncoding/PDFDocEncoding tables",
     ),
     "C30": dict(
-        verus=["names", "incr"],
+        verus=["names", "incr", "lexer"],
         standins=["fmt", "opnames"],
         level_text="the four dictionary-level name emission sites of the main writer and the incremental writer's write_name are proved to emit an ISO name token that decodes to the given bytes; content-stream operator names (/{name} Do through writeln!/format!) have NO deductive unit",
         not_decided="operator names in content streams (graphics ops, page.rs: formatted text outside both verifiers), resource dictionary assembly, form field names, that the library's own lexer decodes #XX to the same string for non-ASCII bytes",
